@@ -13,6 +13,11 @@
           EVERY connected (non-orphan) header (C04_connected_regular) and for orphan chains whose parents were stored
           first; it fails exactly below an orphan whose parent arrived later.
 
+   Any work: the `_any_work` theorems at the end restate everything except "tip = C01's best header" under
+          [InvSome s := exists tip, Inv s tip], the invariant of EVERY reachable store, zero-work headers included
+          (C04_reachable_any_work, from ChainFields.reachable_inv); C04_tip_longest (tip = greatest cumulative work) stays
+          positive-work because C01's best-header statement is refuted for zero-work histories.
+
    Full statement and where the code departs from it:
    * ancestors: "exactly the parent-linked path when b is an ancestor-or-self of a, a same-chain error otherwise":
      C04_ancestors / C04_ancestors_iff / C04_path_unique - the full statement for the code as it is.
@@ -25,7 +30,7 @@
    * common ancestor of an empty list / of a list containing genesis: answered 500 before the fixes 5ab472d / 5c09f8d of /repo,
      now 400 (C04_common_ancestor_endpoint_status). *)
 From Coq Require Import ZArith NArith List.
-From BHS Require Import Store Chain ChainSpec StoreProofs ChainMain Query QueryProofs QueryAncProofs QueryCaProofs QueryExamples.
+From BHS Require Import Store Chain ChainSpec StoreProofs ChainInv ChainMain ChainFields Query QueryProofs QueryAncProofs QueryCaProofs QueryExamples.
 Import ListNotations.
 Open Scope Z_scope.
 
@@ -99,6 +104,49 @@ Theorem C04_common_ancestor_late_parent_refuted :
     common_ancestor s l = CErrNotFound /\ ~ common_answer_ok s l (min_height hs max_int32) (common_ancestor s l).
 Proof. exact common_ancestor_late_parent_refuted. Qed.
 
+(* ================================================================== any work (zero-work headers included) *)
+(* every store reachable by ingestion satisfies the any-work invariant *)
+Theorem C04_reachable_any_work : forall f gid gpl hs, gid <> 0%N -> nonzero_ids hs -> InvSome (run f gid gpl hs).
+Proof. exact reachable_inv. Qed.
+
+Theorem C04_lookup_any_work : forall s t, InvSome s ->
+  (forall r, get_by_hash s t = Some r <-> In r s /\ id r = t) /\ (get_by_hash s t = None <-> ~ In t (ids s)).
+Proof. intros s t H. apply lookup_spec_wf, inv_wf, H. Qed.
+
+(* tip/longest reports the tip of the invariant (the row all Longest labels derive from): Longest, above every other Longest row *)
+Theorem C04_tip_longest_any_work : forall s tip, Inv s tip ->
+  exists t, tip_longest s = Some t /\ by_hash s tip = Some t /\ In t s /\ st t = Longest /\
+            (forall r, In r s -> st r = Longest -> r = t \/ height r < height t).
+Proof. exact tip_longest_inv. Qed.
+
+(* by height needs no invariant at all *)
+Theorem C04_by_height_any_work : forall s h c, InvSome s ->
+  (forall r, In r (by_height_range s h c) -> In r s /\ h <= height r <= h + count_of c - 1) /\
+  (forall r, In r s -> st r = Longest -> h <= height r <= h + count_of c - 1 -> In r (by_height_range s h c)).
+Proof. intros s h c _. apply by_height_spec. Qed.
+
+Theorem C04_tips_any_work : forall s tip, Inv s tip ->
+  exists t, tipB s = Some t /\ by_hash s tip = Some t /\ st t = Longest /\
+    forall r, In r (tips s) <-> r = t \/ (In r s /\ st r <> Longest /\ ~ has_child s r).
+Proof. exact tips_spec_inv. Qed.
+
+Theorem C04_ancestors_any_work : forall s a b, InvSome s -> regular s a -> ancestors_answer_ok s a b (ancestors s a b).
+Proof. intros s a b H. apply ancestors_spec_wf, inv_wf, H. Qed.
+
+Theorem C04_ancestors_iff_any_work : forall s a b, InvSome s -> regular s a ->
+  ((exists p, ancestors s a b = AOk p) <-> exists rb, by_hash s b = Some rb /\ reach s a rb).
+Proof. intros s a b H. apply ancestors_iff_wf, inv_wf, H. Qed.
+
+Theorem C04_common_ancestor_any_work : forall s l hs, InvSome s -> l <> [] -> (forall t, In t l -> regular s t) ->
+  Forall2 (fun t r => by_hash s t = Some r) l hs ->
+  common_answer_ok s l (min_height hs max_int32) (common_ancestor s l).
+Proof. intros s l hs H. apply common_ancestor_spec_wf, inv_wf, H. Qed.
+
+Theorem C04_common_ancestor_connected_any_work : forall s l hs, InvSome s -> l <> [] ->
+  Forall2 (fun t r => by_hash s t = Some r /\ orph r = false) l hs -> 1 <= min_height hs max_int32 ->
+  exists r, common_ancestor s l = COk r.
+Proof. intros s l hs H. apply common_ancestor_connected_wf, inv_wf, H. Qed.
+
 Print Assumptions C04_lookup.
 Print Assumptions C04_tip_longest.
 Print Assumptions C04_by_height.
@@ -113,3 +161,12 @@ Print Assumptions C04_common_ancestor_connected.
 Print Assumptions C04_common_ancestor_unknown.
 Print Assumptions C04_common_ancestor_endpoint_status.
 Print Assumptions C04_common_ancestor_late_parent_refuted.
+Print Assumptions C04_reachable_any_work.
+Print Assumptions C04_lookup_any_work.
+Print Assumptions C04_tip_longest_any_work.
+Print Assumptions C04_by_height_any_work.
+Print Assumptions C04_tips_any_work.
+Print Assumptions C04_ancestors_any_work.
+Print Assumptions C04_ancestors_iff_any_work.
+Print Assumptions C04_common_ancestor_any_work.
+Print Assumptions C04_common_ancestor_connected_any_work.
